@@ -26,6 +26,7 @@ META = {
 META['C09'] = dict(
   text=("Kernel-checked invariant Cache.Inv (used size = sum of stored lengths mod 2^32 and exactly below a configured capacity; total <= capacity; each key in one scope; every live key sized; "
         "no stored value above its limit) proved preserved by every operation and lifted by induction to EVERY operation sequence from NewCache (reachable_inv); plus limit_enforced_add/update, "
+        "(the engine suite is run as well and compared on the cache fields: the cache as the engine configures and drives it, capacity from the configuration or from the cache object handed over) "
         "rejected_unchanged_* (the operations return the cache Go leaves behind, Update's blank-and-restore rollback is modelled and proved to restore exactly), pop_releases_frame_bytes, get_after_add. "
         "Tie: 3000 (quick) / 60000 (thorough) random op sequences over 4 keys, value lengths 0..70000 around the 16-bit boundary, limits and capacities incl. 0, every exported field compared after every op, "
         "plus an independent Go reference oracle."),
@@ -49,12 +50,12 @@ META['C02'] = dict(
   note=_ENG_NOTE + "pages_partition (complete, once, in order) is left as a documented gap: it is false on the current tree.")
 META['C03'] = dict(
   text=("Kernel-checked for all programs/inputs (Vise/Props/C03.lean): an INCMP that does not match does not move; the first matching INCMP (selector = input, or wildcard while nothing matched) is exactly the move to its target; "
-        "wildcard honoured only by the first match; no match => MOVE _catch with the invalid-input message; '<' on page 0 is the index error, sets READIN, ignores later INCMPs and changes nothing. The 'once' clause is FALSE on the tree "
+        "wildcard honoured only by the first match; no match => MOVE _catch with the invalid-input message; '<' on page 0 is the index error, sets READIN, ignores later INCMPs and changes nothing; the invalid-input message is prepended to the rendered page as literal text for EVERY input, template syntax included (error_prefix_is_literal, since fix 3c37471). The 'once' clause is FALSE on the tree "
         "(incmp_after_match_still_moves, known finding, not repairable without editing a test); proved instead: a later INCMP moves only if its selector equals the input again."),
   note=_ENG_NOTE)
 META['C04'] = dict(
   text=("Kernel-checked refinement (applyTarget_refines): for every state and every valid target the position (stack, index) after applyTarget is what the documented move table specMove gives, and a failing move leaves the position unchanged; "
-        "rewind by induction over any depth; idx reset on descent/ascent; lateral moves keep the stack; '<' at index 0 fails without effect. MOVE, INCMP and CATCH all go through applyTarget in the model. Engine.Reset (reset-on-empty-input) from ANY depth, the entry node included, leaves the empty path, the base cache scope and MOVE <root> pending (reset_on_empty_input_restarts, Vise/Props/C04Reset.lean). Tie: engine suite compares path and index after every request."),
+        "rewind by induction over any depth; idx reset on descent/ascent; lateral moves keep the stack; '<' at index 0 fails without effect. MOVE, INCMP and CATCH all go through applyTarget in the model. The pre-VM detour of an engine with a first function puts the page index back (fix 80b4540; before it every request of a per-request engine started from page 0). Engine.Reset (reset-on-empty-input) from ANY depth, the entry node included, leaves the empty path, the base cache scope and MOVE <root> pending (reset_on_empty_input_restarts, Vise/Props/C04Reset.lean). Tie: engine suite compares path and index after every request."),
   note=_ENG_NOTE + "specMove is transcribed by hand from doc/texinfo/navigation.texi. The two explicit panics of State.Down are excluded by hypothesis (C08).")
 META['C05'] = dict(
   text=("Kernel-checked: LOAD of a visible symbol is a no-op (no call); otherwise the cache after LOAD is Add(sym,result,uint16(size)) of the cache before and the external call touches neither cache, page nor position (refresh_keeps, "
